@@ -550,20 +550,31 @@ def make_replay(work, ob, res, rdir):
                                    "location": p.get("sourceLocation", {})} for p in res.failed[:10]],
             "cbmc_cmd": " ".join(cbmc_cmd(ob, "<prog.gb>"))}
     val = extract_input(trace) if trace else None
+    def write_model_runsh():
+        with open(os.path.join(rdir, "run.sh"), "w") as f:
+            f.write("#!/bin/sh\n# model-level replay: re-decide the obligation on /repo's current tree\n"
+                    "cd /verif && exec bin/check %s --only '^%s$' --tier thorough\n" % (res.ob_prop, re.escape(ob.name)))
+        os.chmod(os.path.join(rdir, "run.sh"), 0o755)
+    if trace:
+        with open(os.path.join(rdir, "trace.txt"), "w") as f:
+            for st in trace:
+                loc = st.get("sourceLocation", {})
+                if st.get("stepType") in ("assignment", "function-call", "failure") and not st.get("hidden"):
+                    f.write("thread=%s %s %s:%s %s %s\n" % (st.get("thread"), st.get("stepType"), os.path.basename(loc.get("file", "")),
+                                                            loc.get("line", ""), st.get("lhs", ""),
+                                                            (st.get("value") or {}).get("data", "") if isinstance(st.get("value"), dict) else ""))
     if val is None:
         info["input"] = None
         json.dump(info, open(os.path.join(rdir, "inputs.json"), "w"), indent=1)
-        return None, "no input struct in trace"
+        write_model_runsh()
+        return None, "model-level replay (no input struct: schedule / fault trace in trace.txt)"
     info["input"] = value_to_py(val)
     json.dump(info, open(os.path.join(rdir, "inputs.json"), "w"), indent=1)
     with open(os.path.join(rdir, "replay_in.h"), "w") as f:
         f.write("#define REPLAY_IN_INIT %s\n" % value_to_c(val))
     shutil.copy(harness_path(ob.harness), os.path.join(rdir, "harness.c"))
     if ob.replay != "native":
-        with open(os.path.join(rdir, "run.sh"), "w") as f:
-            f.write("#!/bin/sh\n# model-level replay only: re-run the obligation\n"
-                    "cd /verif && exec bin/check %s --only '%s'\n" % (res.ob_prop, ob.name))
-        os.chmod(os.path.join(rdir, "run.sh"), 0o755)
+        write_model_runsh()
         return None, "model-level replay"
     # native build
     hd = dict(ob.defs)
